@@ -449,6 +449,23 @@ def run_alphabet_history(rec, sh):
                             else:
                                 _check_call(rec, "multisubstitute", ersatz.multisubstitute, X, Xc, [], True, _expect_sub(codes, want, 1), case,
                                             ([ms_fixed], 0), dict(start=1, alphabet=alpha))
+    # alphabets of DIFFERENT sizes sharing a prefix, alternated on the same motif strings (a cache keyed on the motif alone would mix them)
+    for A2 in (A - 1, A + 1):
+        if A2 < 2 or A2 > 6:
+            continue
+        small = min(A, A2)
+        for w in (1, 2):
+            for mcodes in all_codes(small, w):
+                ms = "".join(letters[c] if c < len(letters) else ALPHA[c] for c in mcodes)
+                for (Ax, order) in ((A, 0), (A2, 1), (A, 2), (A2, 3)):
+                    alpha = list(ALPHA[:Ax])
+                    cx = all_codes(Ax, 3)
+                    Xx = ohe(cx, Ax)
+                    case = dict(fn="substitute", A=Ax, L=3, motif=ms, alphabet="".join(alpha), start=0, history="alternating alphabet sizes %d/%d" % (A, A2))
+                    want = numpy.array([[alpha.index(ch) for ch in ms]])
+                    _check_call(rec, "substitute", ersatz.substitute, Xx, Xx.clone(), [], True, _expect_sub(cx, want, 0), case, (ms,), dict(start=0, alphabet=alpha))
+                    _check_call(rec, "insert", ersatz.insert, Xx, Xx.clone(), [], True, _expect_ins(cx, want, 3), dict(case, fn="insert", start=3), (ms,),
+                                dict(start=3, alphabet=alpha))
     rec.sample(dict(fn="alphabet_history", A=A, alphabets=["".join(letters[q] for q in pp) for pp in perms], motifs="all strings of width 1-2"))
 
 
